@@ -13,12 +13,12 @@ P = {
    "§6 C01"),
  "C02": (True,
    'stateful model-based testing: proptest-generated git operation sequences executed against a real repository and an in-memory DAG model; the real binary is probed after steps and compared with ground truth known by construction plus independent version comparators',
-   "500 (quick) / 8000 (thorough) histories of up to 14/40 operations (commits with skewed dates, branches, detach, --no-ff and octopus merges, lightweight/annotated tags of every name class at any commit, unreachable tags, tag deletion, four kinds of dirt) are built with native git; `zerv version -C` is run for input formats auto/semver/pep440 and every reported fact (nearest tagged commit, highest tag on it, distance, dirty, branch, hashes, times, no-tag failure) is checked against the harness's own model of the DAG. After every probed state the same repository is run with one of eight VCS-override combinations (--clean, --no-dirty, --dirty, --distance, --bumped-branch/--bumped-commit-hash, --no-bump-context, --bumped-timestamp): exactly the documented variables may change; and (clean states) the extracted object piped into --source stdin must give what the git source gives directly for version with six schemas and for flow. Operations include rewriting a tracked file with identical bytes, empty directories, branches named like a tag.",
-   "Ground truth = the harness's model of what it built (commit hashes read back with git rev-parse). git 2.39.5 only; no shallow clones/submodules/worktrees. Author date = committer date in generated commits.",
+   "500 (quick) / 8000 (thorough) histories of up to 14/40 operations (commits with skewed dates, branches, detach, --no-ff and octopus merges, lightweight/annotated tags of every name class at any commit, unreachable tags, tag deletion, four kinds of dirt) are built with native git; `zerv version -C` is run for input formats auto/semver/pep440 and every reported fact (nearest tagged commit, highest tag on it, distance, dirty, branch, hashes, times, no-tag failure) is checked against the harness's own model of the DAG. After every probed state the same repository is run with one of eight VCS-override combinations (--clean, --no-dirty, --dirty, --distance, --bumped-branch/--bumped-commit-hash, --no-bump-context, --bumped-timestamp): exactly the documented variables may change; and (clean states) the extracted object piped into --source stdin must give what the git source gives directly for version with six schemas and for flow. Operations include rewriting a tracked file with identical bytes, flipping a tracked file's executable bit, empty directories, branches named like a tag, files named like a tag or HEAD, pack-refs / gc, high-version tags on a blob or a tree, refs outside refs/heads and refs/tags named like versions, a second (optionally tagged) root merged with --allow-unrelated-histories. Every probed state is also run under a user-level git configuration (core.excludesFile ignoring an untracked file; column.ui / color.ui = always, tag.sort, log.decorate, status.short): dirty follows git's view, every other fact equals the plain run.",
+   "Ground truth = the harness's model of what it built (commit hashes read back with git rev-parse). git 2.39.5 only; no shallow clones/submodules (a linked work tree is exercised in C03). Every generated commit has an author date 463 days before its committer date, in another zone.",
    "§6 C02"),
  "C03": (True,
    "proptest generation of flow states judged by independent SemVer / PEP 440 comparators (bounds X.Y.Z < V < X.Y.(Z+1), exact value when clean), metamorphic distance-monotonicity pairs, pre-release-tag fixed point; real-git first-parent chains in C02's repository machinery",
-   "Final tags x branches x distances x dirty flags x rule sets x post modes x hash lengths x standard presets x both formats are run through `zerv flow`; the output is ordered against the tag and the next patch release by comparators that share no code with zerv; pairs of distances in commit mode must give strictly increasing versions; a clean checkout at a pre-release tag of flow's own shapes must return the tag. In the real-git chains a tracked file is rewritten with identical content before probes, and the printed post number must equal the number of commits since the tag. The tagged commit of a chain may also carry pre-release tags of the same release (rc promoted to final).",
+   "Final tags x branches x distances x dirty flags x rule sets x post modes x hash lengths x standard presets x both formats are run through `zerv flow`; the output is ordered against the tag and the next patch release by comparators that share no code with zerv; pairs of distances in commit mode must give strictly increasing versions; a clean checkout at a pre-release tag of flow's own shapes must return the tag. In the real-git chains a tracked file is rewritten with identical content before probes, and the printed post number must equal the number of commits since the tag. The tagged commit of a chain may also carry pre-release tags of the same release (rc promoted to final). At the end of a chain the commits after the tag are checked out in a linked work tree nested below the main checkout (which goes back to the tag): flow run from inside it equals flow -C and is above the tag.",
    'standard-base[-context] print only the bumped core by documented design (V == X.Y.(Z+1) asserted there). PEP 440 order = public version order. Tag numbers <= u32::MAX-2.',
    "§6 C03"),
  "C04": (True,
@@ -62,24 +62,24 @@ P = {
    'Trusts harness/src/oracle/pep440.rs::cmp, written from the key in the property statement (which differs from PEP 440 proper only in where a bare dev release sorts).',
    "§6 C11"),
  "C12": (True,
-   'round-trip property testing (emit -> parse -> emit) over proptest-generated and zerv-emitted objects, differential direct-vs-piped rendering (in-process and through a real process pipe), negative testing with one-rule-broken and mutated/truncated/garbage documents, independent placement validator',
+   'round-trip property testing (emit -> parse -> emit) over proptest-generated and zerv-emitted objects, differential direct-vs-piped rendering (in-process and through a real process pipe), negative testing with one-rule-broken, trailing-content (a complete document followed by a stray tail or a second document) and mutated/truncated/garbage documents, independent placement validator',
    'Objects built from generated schemas x vars (escapes, Unicode, nested custom JSON, u64 edges) and objects emitted by `version`/`flow` with random flags must parse back equal and re-emit byte-identically, satisfy an independent implementation of the placement rules, and render the same through `--source stdin` as directly (semver, pep440, templates; also through two real processes connected by a pipe); clock-free objects (harness-made with custom precedence orders, or emitted by version/flow runs) must pass through `version --source stdin --output-format zerv` byte-identically; each of 8 placement rules broken in an otherwise valid document must be refused by version and flow in every output format; malformed documents give an error or a lossless object, never a panic. big-documents: objects of 8-40 KiB with a long run of 2-/3-/4-byte characters at a random offset through two real processes and a pipe.',
    "custom Null (source none) and {} (stdin default) are treated as the same 'no custom variables'. Dirty objects that print a timestamp are not compared through the pipe (wall clock).",
    "§6 C12"),
  "C13": (True,
    'fuzzing with structured adversarial argv/stdin generation (proptest) under a no-panic / process-contract oracle, in-process and through the real binary (differential, -v/RUST_LOG metamorphic), plus exhaustive single-fault enumeration of every git invocation via a PATH shim',
    "200k (quick) / 3M (thorough) adversarial argument vectors for the four sub-commands run in-process under catch_unwind; 700/10k of them through the binary checking exit status 0/1, empty stdout + diagnostic on failure, library/binary agreement and stdout invariance under -v and RUST_LOG=trace; for generated repositories every git call zerv makes is failed in turn in 8 ways (about 90 fault runs per repository and command) and 8 special environment states are tried; ten template shapes nested/chained up to the argv limit (binary only) are held to the same contract and to their value (two defects of the template engine are absorbed by signature: F17 stack overflow, F18 exponential parse); a table check keeps the generator's flag set equal to `--help`. special-states now has 18 entries (8 faults, 6 unusual healthy repositories, 4 commits carrying several names of one version); a third of the argument vectors are whole valid command lines with one to three adversarial flags; a TRACE-level subscriber evaluates every log argument in-process.",
-   'Single git faults only (multi-fault sequences are not enumerated). --llm-help excluded. Clock-derived 10-digit numbers are masked when comparing runs.',
+   'Single git faults only (multi-fault sequences are not enumerated). special-states also runs command lines with an argument that is not valid UTF-8, stdin documents whose custom value is nested 40 .. 200 000 deep, and six calls of Tera built-ins (known finding F30: get_random on an empty range). --llm-help excluded. Clock-derived 10-digit numbers are masked when comparing runs.',
    "§6 C13"),
  "C14": (True,
    'metamorphic testing through the real binary: proptest-generated runs (stdin objects with day-boundary timestamps and time/hash-printing schemas and templates; real repositories) repeated under a matrix of environments; output must be byte-identical to the baseline',
-   '600 (quick) / 6000 (thorough) stdin cases and 100/1200 repositories are each run in a UTC/C baseline and in 12 environment variants (time zones from UTC-11 to UTC+14 incl. POSIX TZ strings and unset TZ, locales, another cwd, 59 unrelated variables, repetition), with RUST_LOG=debug, three concurrent processes, and (git) from inside the repository without -C; stdout, exit status and stderr must not change. Timestamps lie within 14 h of a UTC day boundary so any local-time use flips a printed field. A third of the git cases are really dirty trees switched off by --no-dirty/--clean, repeated 1.1 s later; stdin cases carry random clock-free flags and unset timestamps.',
+   '600 (quick) / 6000 (thorough) stdin cases and 100/1200 repositories are each run in a UTC/C baseline and in 15 environment variants (time zones from UTC-11 to UTC+14 incl. POSIX TZ strings and unset TZ, locales, another cwd, 59 unrelated variables, repetition, unrelated variables whose value or name is not valid UTF-8, git's German/French message catalogue - stdout and status only), with RUST_LOG=debug, three concurrent processes, and (git) from inside the repository without -C; stdout, exit status and stderr must not change. Timestamps lie within 14 h of a UTC day boundary so any local-time use flips a printed field. A third of the git cases are really dirty trees switched off by --no-dirty/--clean, repeated 1.1 s later; stdin cases carry random clock-free flags and unset timestamps.',
    "Cases are clock-free by construction (the documented wall-clock dev timestamp is excluded here and bracketed in C02/C04/C06). Only the image's locales exist; one machine/libc/rustc.",
    "§6 C14"),
  "C15": (True,
    'differential testing of the template context against --output-format output for the same object, recomposition identities (metamorphic), and function-contract checks against reference models (sanitiser, calendar strftime subset) and stated length/digit contracts over proptest-generated objects and arguments',
    'For generated clock-free objects every documented template variable is probed (between sentinels) and compared with the renderer output / the input variable; *_obj parts must recompose exactly and docker must be the SemVer with + replaced by -; hash, hash_int, prefix, prefix_if, sanitize and format_timestamp are called with arbitrary Unicode values and generated arguments and judged by contracts and reference models; invalid strftime specifiers must produce an error, not a panic; the same agreement is checked at the end of whole `zerv version` command lines (overrides, bumps, schema-section operations) against --output-format of the same command line. Templates as values of override/bump flags must act like the literal value they evaluate to; literal text around a placeholder (file-name endings, HTML-special characters) is copied and leaves the value unchanged; sanitize() without a separator treats the whole value as one segment.',
-   'Trusts oracle::sanitize and oracle::calendar::strftime (22 specifiers). Unset variables render as empty text. Harness TZ is 14 h from UTC so local-time use shows.',
+   'Trusts oracle::sanitize and oracle::calendar::strftime (37 specifiers incl. the zone-bearing %z %:z %Z %+). Unset variables render as empty text. Harness TZ is 14 h from UTC so local-time use shows.',
    "§6 C15"),
  "C16": (True,
    "exhaustive small-universe enumeration + proptest random generation against an independent reference model of the sanitiser contract (differential), plus idempotence (metamorphic)",
@@ -89,12 +89,12 @@ P = {
  "C17": (True,
    'exhaustive enumeration of every day 1970-2199 (first and last second) x 16 patterns + random boundary-biased instants, differential against an independent civil-from-days calendar; CLI metamorphic relation ts(p) == literal of the oracle value; harness runs 14 h away from UTC',
    "Every day of the quantifier's range is checked at 00:00:00 and 23:59:59 for all 16 patterns against Hinnant's calendar algorithm (no chrono); CalVer presets are run through the version pipeline on sources none and stdin and must start with the UTC year.month.day of the commit (else tag) time; each documented pattern by name in each schema section must render exactly like the literal of the oracle's value. Real repositories (commits with skewed dates around a tag, clean or really dirty) are run with CalVer presets and --clean / --no-dirty / --no-bump-context.",
-   'Trusts harness/src/oracle/calendar.rs (unit-tested on known dates, leap years and week-0 cases). The in-process layer runs with TZ=<+14>-14 so any local-time use shows.',
+   'Trusts harness/src/oracle/calendar.rs (unit-tested on known dates, leap years and week-0 cases). beyond-i64: timestamps of 2^63 and above must be refused by every pattern and by format_timestamp (F27). Generated commits carry an author date that differs from the committer date. The in-process layer runs with TZ=<+14>-14 so any local-time use shows.',
    "§6 C17"),
  "C18": (True,
    'Hypothesis differential testing: each Python call against the equivalent command line built independently from the keyword names and run on the freshly built binary; finite per-keyword enumeration, generated keyword subsets with shrinking, stateful call sequences, fault injection on the child process (stand-in binary: exit statuses 0..255 and deaths by signal), option-parity table against --help',
    "Every keyword of zerv.version/flow/check/render is exercised individually with valid values and in Hypothesis-generated subsets (None/False included); the call must return exactly the stripped stdout of the independent command line, raise RuntimeError iff that command fails, and execute the same argv when None/False keywords are removed; every long option listed by `zerv <sub> --help` must be reachable from a keyword and every keyword's flag must exist.",
-   "The wrapper is imported from /repo/python with find_zerv_bin pointed at the binary built from /repo; maturin/PyO3 packaging is out of scope. Values are valid per keyword and never start with '-'.",
+   "inherited-stdin: a child interpreter whose own stdin is a pipe (a Zerv document, empty, garbage), inside and outside a repository, against the command line started the same way. The reference command line is read as bytes (carriage returns survive). The wrapper is imported from /repo/python with find_zerv_bin pointed at the binary built from /repo; maturin/PyO3 packaging is out of scope. Values are valid per keyword and never start with '-'.",
    "§6 C18"),
 }
 
